@@ -7,6 +7,8 @@ from harness import runner, tlc, trace
 from harness.result import CheckResult, attach
 
 ASSUMPTIONS = [
+    "an alias is never the name of ANOTHER component of the same diagram (a bare reference would be ambiguous); it may be "
+    "the component's own name, and it may be a name that other diagrams parsed by the same parser object use for a component",
     "documented subset (DiagramSem!DocumentedDiagram): a component is declared at most once, aliases only on bracketed "
     "declarations, alias names differ from component names, no self-arrows, one canonical spacing",
     "the renderer prints each abstract line in the form docs/features/plantuml.md shows; every rendered line is "
@@ -42,7 +44,14 @@ def random_diagram(rng, pool, n_comps, dotted_names):
             form = rng.choice(DECL_FORMS)
             al = ""
             if form != "component" and rng.random() < 0.5:
-                al = f"AL{i}"
+                roll = rng.random()
+                free = [p for p in pool if p not in comps and p not in aliases.values()]
+                if roll < 0.2 and not dotted_names:
+                    al = n[-1]                      # '[core] as core': the alias is the component's own name
+                elif roll < 0.5 and free:
+                    al = rng.choice(free)           # a name that OTHER diagrams of the episode use for a component
+                else:
+                    al = f"AL{i}"
                 aliases[tuple(n)] = al
             lines.append({"t": "decl", "comp": n, "form": form, "alias": al})
     pairs = [(a, b) for a in names for b in names if a != b]
